@@ -479,6 +479,7 @@ func cmdBaseline(repo, verif string, timeout int) int {
 	}
 	data, _ := json.MarshalIndent(b, "", " ")
 	os.WriteFile(filepath.Join(verif, "obligations.baseline.json"), data, 0o644)
+	writeNamesBaseline(e, verif)
 	fmt.Printf("baseline written, %d undecided\n", bad)
 	return 0
 }
